@@ -243,13 +243,21 @@ Definition set_gr_absolute_indexes v g := mkGobj (gr_transactions g) v (gr_group
 Definition set_gr_group_relative_indexes v g := mkGobj (gr_transactions g) (gr_absolute_indexes g) v (gr_operation_name g).
 Definition set_gr_operation_name v g := mkGobj (gr_transactions g) (gr_absolute_indexes g) (gr_group_relative_indexes g) v.
 
+(* ---- txn.absoulte_index is any Python int (the configuration is not validated); the model's record and Gen/GroupGen.v
+   hold a natural number.  abs_slot i = the slot of the MAX_GROUP_SIZE-entry context lists that gtxn_context(i) /
+   absolute_context(i) read: a negative i indexes the Python list from its end; i >= MAX_GROUP_SIZE raises
+   TealerException and i < -MAX_GROUP_SIZE IndexError: both are sent to an out-of-range slot, on which Gen/GroupGen.v
+   raises as well (Lemmas/AbsIndexLemmas.v: the three consumers of the index agree on i and abs_slot i, for EVERY i) *)
+Definition abs_slot (i : Z) : N :=
+  let m := Z.of_N MAX_GROUP_SIZE in
+  if (i <? - m)%Z then MAX_GROUP_SIZE else if (i <? 0)%Z then Z.to_N (m + i) else Z.to_N i.
+
 (* ---- the Transaction objects as Gen/GroupGen.v reads them (its GLUE TABLE 1): the model's record gtxn, a Function by
-   its index, a referenced transaction by its id; GroupGen reads absoulte_index as option_map Z.of_N (g_abs ..), so
-   only non-negative absolute indexes are represented faithfully (Lemmas/GroupInitGenLemmas.v: abs_nonneg) *)
+   its index, a referenced transaction by its id, the absolute index by its slot *)
 Definition view_txn (heap : list tobj) (r : nat) : gtxn :=
   let o := hread heap r in
   mkTxn (o_transacton_id o) (o_type o) (o_has_logic_sig o) (option_map fst (o_logic_sig o)) (option_map fst (o_application o))
-        (option_map Z.to_N (o_absoulte_index o))
+        (option_map abs_slot (o_absoulte_index o))
         (map (fun kv => (fst kv, o_transacton_id (hread heap (snd kv)))) (o_relative_indexes o)).
 Definition view_group (heap : list tobj) (g : gobj) : list gtxn := map (view_txn heap) (gr_transactions g).
 (* fill_group_relative_indexes(group_obj): Gen/GroupGen.v, on the current value of the attribute *)
